@@ -175,18 +175,20 @@ PROPS = {
         "level": "proof",
         "rule": "UNI ops (one piece on a tokenizer without normalization/split/specials): exhaustive pieces up to length 5 (quick) / 8 "
                 "(thorough) over {a,b} and up to 5/6 over {a,é,語} x generated scored vocabularies (many exact ties, multi-byte characters, "
-                "holes), random pieces of 1..24 and 150..600 characters, shipped xlnet (both sources) and nai-t5 on corpus words with real "
+                "holes), 60 / 600 vocabularies that are not built from their single characters (entries spanning positions where no entry "
+                "ends) x all pieces up to length 5..7, random pieces of 1..24 and 150..600 characters, shipped xlnet (both sources) and nai-t5 on corpus words with real "
                 "scores. Judged by an independent dynamic program over all segmentations (Spec.uniCheck: optimal cost when segmentable; "
                 "token/hole walk otherwise). Non-trivial: at least one token or an error returned.",
         "trusted_base": CORE_TB + ["IEEE-754: f64 subtraction is monotone and <= is a total preorder without NaN (LawfulCost laws are proved "
                                    "for Int and assumed for Float, which is used only in the driver, never in a theorem)",
                                    "modelled, not verified: hashbrown maps as finite maps"],
         "assumptions": ["vocabulary ids differ from u32::MAX; entries are at most max_token_bytes long (constructor facts, hypotheses hid/hmax)",
-                        "optimality is proved inside BoundedCost (scores <= 0, every partial segmentation costs < 1e6); outside it the code "
-                        "genuinely fails (known finding F13, Lean witness sentinel_counterexample)"],
+                        "the code as repaired (F13, commit 8176aef) compares (broken, score) lexicographically: modelled as the cost type Tainted S"],
         "explanation": "Lean theorems for every cost type satisfying the laws: the Viterbi table, back-walk and reversal yield a walk whose "
                        "tokens match the text and whose holes are exactly units at whose end no entry ends (unigram_walk, no cost "
-                       "hypotheses), and inside BoundedCost a minimal-cost segmentation whenever one exists (viterbi_optimal_partial). "
+                       "hypotheses), and a minimal-cost segmentation whenever one exists, with no bound on costs and scores of either sign "
+                       "(viterbi_optimal, for the repaired comparison; viterbi_optimal_partial and sentinel_counterexample document the "
+                       "pre-repair code: optimal only inside BoundedCost). "
                        "Tied to src/encoder/unigram.rs by differential runs.",
     },
     "C05": {
